@@ -7,6 +7,14 @@ ROOT = os.path.dirname(os.path.dirname(os.path.abspath(__file__)))
 ALL = [f"C{i:02d}" for i in range(1, 21)]
 
 CLAIMED = {
+    "C08": dict(
+        text="Bounded symbolic execution (CrossHair/z3), pair by pair: the command line every client method builds for a SYMBOLIC Unicode name -> real parse_command -> get_paths addresses exactly that name; "
+             "the client's 257 parser inverts RFC-959 quote doubling for symbolic names and the real server's PWD reply decodes to the same directory; MLSx line round trip on symbolic names; LIST line round trip and "
+             "a whole life cycle (MKD..RMD) through the real dispatcher over a class-representative alphabet.",
+        note="Trusted: CrossHair/z3 (string model, one upstream equality bug patched). Known finding (open): LIST fallback drops leading spaces of a name. Outside: names beyond the length bounds, non-utf-8 encodings, filesystem normalisation.",
+        technique="bounded symbolic execution of the real Python code (CrossHair 0.0.110 + z3): encoder/decoder pair harnesses on symbolic strings",
+        design_ref="DESIGN.md section 3 C08",
+    ),
     "C07": dict(
         text="z3 over the CURRENT source of build_list_mtime / parse_ls_date / format_date_time executed by an AST interpreter on civil-field integers (every mtime / server-now / client-now in 1971..2104, skew <= 1 h): "
              "minute precision inside the half year, day precision otherwise, form chosen exactly by age, only ValueError; format model validated exhaustively against the real library, repository vectors through both, "
